@@ -183,3 +183,116 @@ class BasicGt(_Bin):
 
     def post(self, ns):
         return _shape(ns, 1, H.If(ns.va > ns.vb, 1, 0))
+
+
+# ------------------------------------------------------------------------------ C14 helpers
+@register
+class Select(WireContract):
+    """select(sel, truecase, falsecase): length max(len t, len f); truecase when sel == 1 else
+    falsecase (operands zero-extended)."""
+    module, qualname, props = 'pyrtl.corecircuits', 'select', ('C14', 'C06')
+
+    def setup(self, I, case):
+        s = W.input_wire(I, 'sel')
+        t, f = W.input_wire(I, 't'), W.input_wire(I, 'f')
+        return self.bind(I, None, [s, t, f], {})
+
+    def bind(self, I, selfobj, args, kwargs):
+        from pyvc.engine import SObj, Unsupported
+        a = list(args) + [kwargs.get('truecase'), kwargs.get('falsecase')][len(args) - 1:] if len(args) < 3 else list(args)
+        s, t, f = a[0], a[1], a[2]
+        if not all(isinstance(x, SObj) for x in (s, t, f)):
+            raise Unsupported('select with non-wire operands')
+        return NS(args=[s, t, f], vs=W.den_of(s), ws=W.bw_of(s), vt=W.den_of(t), wt=W.bw_of(t),
+                  vf=W.den_of(f), wf=W.bw_of(f))
+
+    def pre(self, ns):
+        return [('select is one bit', ns.ws == 1)]
+
+    def post(self, ns):
+        L = H.If(ns.wt >= ns.wf, ns.wt, ns.wf)
+        return _shape(ns, L, H.If(ns.vs == 0, ns.vf, ns.vt))
+
+
+@register
+class BitfieldUpdate(WireContract):
+    """bitfield_update(w, start, end, newvalue, truncating): w with the bits of the Python slice
+    [start:end] replaced by newvalue (zero-extended; truncated when truncating=True); an empty
+    field or an over-long value without truncating is refused."""
+    module, qualname, props = 'pyrtl.corecircuits', 'bitfield_update', ('C14',)
+    parallel = True
+
+    def cases(self):
+        import os
+        # an explicit end multiplies the slice-normalisation paths (about 70 s): thorough tier only
+        ends = ('None', 'int') if os.environ.get('VERIF_TIER') == 'thorough' else ('None',)
+        return ['%s,%s,%s' % (s, e, t) for s in ('None', 'int') for e in ends for t in ('F', 'T')]
+
+    def setup(self, I, case):
+        s, e, t = case.split(',')
+        w, nv = W.input_wire(I, 'w'), W.input_wire(I, 'nv')
+        lo = None if s == 'None' else I.st.fresh_int('start')
+        hi = None if e == 'None' else I.st.fresh_int('end')
+        return NS(args=[w, lo, hi, nv, t == 'T'], vw=W.den_of(w), ww=W.bw_of(w), vn=W.den_of(nv), wn=W.bw_of(nv),
+                  lo=None if lo is None else lo.t, hi=None if hi is None else hi.t, trunc=(t == 'T'))
+
+    def _field(self, ns):
+        n = ns.ww
+
+        def norm(b, dflt):
+            if b is None:
+                return dflt
+            return H.If(b < 0, H.If(n + b < 0, 0, n + b), H.If(b > n, n, b))
+        lo, hi = norm(ns.lo, 0), norm(ns.hi, n)
+        return lo, H.If(hi > lo, hi - lo, 0)
+
+    def raises(self, ns):
+        lo, n = self._field(ns)
+        if ns.trunc:
+            return [('PyrtlError', n == 0)]
+        return [('PyrtlError', H.Or(n == 0, ns.wn > n))]
+
+    def post(self, ns):
+        lo, n = self._field(ns)
+        nv = H.mod(ns.vn, H.pow2(n))       # == vn when it fits
+        den = H.mod(ns.vw, H.pow2(lo)) + nv * H.pow2(lo) + H.div(ns.vw, H.pow2(lo + n)) * H.pow2(lo + n)
+        out = _shape(ns, ns.ww, den)
+        if ns.hi is not None:
+            # with an explicit end the value clause needs div/mod reasoning over three symbolic
+            # powers that z3 does not finish within the budget: only length, range, refusal and the
+            # well-formedness of every net are claimed for these cases (values: bounded family C14)
+            out = [c for c in out if c[0] != 'exact value']
+        return out
+
+    def concrete(self, tier='quick'):
+        def mk(ww, wn, s, e, trunc):
+            def thunk():
+                import pyrtl
+                pyrtl.reset_working_block()
+                w, nv = pyrtl.Input(ww, 'w'), pyrtl.Input(wn, 'nv')
+                idx = list(range(ww))[s:e]
+                try:
+                    r = pyrtl.bitfield_update(w, s, e, nv, truncating=trunc)
+                except pyrtl.PyrtlError:
+                    ok = (not idx) or (wn > len(idx) and not trunc)
+                    return ok, 'refused', 'accept'
+                if not idx or (wn > len(idx) and not trunc):
+                    return False, 'accepted', 'refuse'
+                o = pyrtl.Output(len(r), 'o')
+                o <<= r
+                sim = pyrtl.Simulation()
+                lo, n = idx[0], len(idx)
+                for x in range(1 << ww):
+                    for y in range(1 << wn):
+                        sim.step({'w': x, 'nv': y})
+                        exp = (x & ~(((1 << n) - 1) << lo)) | ((y & ((1 << n) - 1)) << lo)
+                        if sim.inspect('o') != exp or len(r) != ww:
+                            return False, ((x, y), sim.inspect('o'), len(r)), (exp, ww)
+                return True, 'ok', 'ok'
+            return thunk
+        for ww in (1, 3, 4):
+            for wn in (1, 2):
+                for s in (None, 0, 1, -1, -2, 5):
+                    for e in (None, 0, 1, 2, -1, 9):
+                        for trunc in (False, True):
+                            yield ('ww=%d wn=%d [%r:%r] trunc=%s' % (ww, wn, s, e, trunc), mk(ww, wn, s, e, trunc))
